@@ -455,3 +455,79 @@ def dwhole(d):
     if d._weeks is not None:
         return True
     return isint(d._hours) and isint(d._minutes) and isint(d._seconds)
+
+
+# ---------------------------------------------------------------- recurrences
+def rec_in_bounds(r, p):
+    """p lies within the bounds of recurrence r (by instant)."""
+    ok = True
+    if r._start_point is not None:
+        ok = ok and instant(p) >= instant(r._start_point)
+    if r._min_point is not None:
+        ok = ok and instant(p) >= instant(r._min_point)
+    if r._max_point is not None:
+        ok = ok and instant(p) <= instant(r._max_point)
+    if r._end_point is not None:
+        ok = ok and instant(p) <= instant(r._end_point)
+    return ok
+
+
+def rec_ok(r):
+    """Representation invariant of a TimeRecurrence with an exact interval (or a
+    single point), as its constructor establishes it."""
+    ok = True
+    if r._start_point is not None:
+        ok = ok and normal24(r._start_point)
+    if r._end_point is not None:
+        ok = ok and normal24(r._end_point)
+    if r._duration is None:
+        return (ok and r._repetitions == 1 and r._start_point is not None
+                and r._end_point is not None
+                and instant(r._start_point) == instant(r._end_point))
+    ok = ok and d_exact(r._duration) and dlen(r._duration) > 0
+    if r._repetitions is not None:
+        ok = ok and r._repetitions >= 2
+        ok = ok and r._start_point is not None and r._end_point is not None
+        ok = ok and instant(r._end_point) == instant(r._start_point) + (
+            r._repetitions - 1) * dlen(r._duration)
+    else:
+        ok = ok and (r._start_point is None or r._end_point is None)
+        ok = ok and (r._start_point is not None or r._end_point is not None)
+    return ok
+
+
+def rec_forward(r):
+    return r._start_point is not None
+
+
+def rec_anchor_instant(r):
+    if r._start_point is not None:
+        return instant(r._start_point)
+    return instant(r._end_point)
+
+
+def rec_member_instant(r, k):
+    """Instant of the k-th iterated point (k = 0, 1, ...), exact interval."""
+    if r._duration is None:
+        return rec_anchor_instant(r)
+    if r._start_point is not None:
+        return instant(r._start_point) + k * dlen(r._duration)
+    return instant(r._end_point) - k * dlen(r._duration)
+
+
+def dlen_or0(d):
+    return 0 if d is None else dlen(d)
+
+
+def rec_in_bounds_i(r, t):
+    """An instant t lies within the bounds of recurrence r."""
+    ok = True
+    if r._start_point is not None:
+        ok = ok and t >= instant(r._start_point)
+    if r._min_point is not None:
+        ok = ok and t >= instant(r._min_point)
+    if r._max_point is not None:
+        ok = ok and t <= instant(r._max_point)
+    if r._end_point is not None:
+        ok = ok and t <= instant(r._end_point)
+    return ok
